@@ -1,4 +1,4 @@
-// Shared part of harness/fwddoms{1,2,3,4}.cpp (C01/C02, oracle-only streams fwd-<dom>-oracle):
+// Shared part of harness/fwddoms{1,2,3,4,5}.cpp (C01/C02, oracle-only streams fwd-<dom>-oracle):
 // intra_fwd_analyzer<cfg_ref, Dom> (+ intra_checker / assert_property_checker with check=1)
 // on textual CFG programs (cfgtext.hpp), for a domain chosen with --mode=<dom>.
 // Same header options, sections and output format as harness/fwditv.cpp:
@@ -8,6 +8,7 @@
 // variable is exported (what the oracles of gen/cfgprog.py need).
 // Release configuration (the default CMAKE_BUILD_TYPE of crab): assert() is compiled out,
 // as in harness/domall*.cpp.
+#pragma once
 #include "cfgtext.hpp"
 #include <crab/analysis/fwd_analyzer.hpp>
 #include <crab/analysis/dataflow/liveness.hpp>
